@@ -54,6 +54,12 @@ Definition spec_signatures : list (bytes * bytes) := [
 
 Definition pgp_magic := bs "-----BEGIN PGP P".
 
+Fixpoint count_occ_bytes (p l : bytes) : nat :=
+  match l with
+  | [] => 0%nat
+  | _ :: r => ((if prefix_of p l then 1 else 0) + count_occ_bytes p r)%nat
+  end.
+
 Fixpoint first_sig_success (oracle : list arg) (data : bytes) (sigs : list (bytes * bytes)) : option info :=
   match sigs with
   | [] => None
@@ -83,8 +89,12 @@ Definition check_C07 (op : bytes) (input impl : arg) : arg :=
     match arg_nth 0 impl with
     | AL [AZ 0%Z; ia] =>
         let i := info_of_arg ia in
-        (* (b) PGP armor never reported as generic PEM *)
-        if prefix_of pgp_magic data && (bytes_eqb (i_desc i) (bs "unknown PEM data") || bytes_eqb (i_desc i) (bs "multiple PEM blocks"))
+        (* (b) PGP armor never reported as generic PEM: the PEM blocks described cannot outnumber
+           the BEGIN markers that are not PGP armor *)
+        let n_other := (count_occ_bytes (bs "-----BEGIN ") data - count_occ_bytes (bs "-----BEGIN PGP ") data)%nat in
+        if prefix_of pgp_magic data &&
+           ((bytes_eqb (i_desc i) (bs "unknown PEM data") && Nat.eqb n_other 0)
+            || (bytes_eqb (i_desc i) (bs "multiple PEM blocks") && Nat.ltb n_other (length (i_children i))))
         then AS "PGP armor reported as generic PEM"
         else
         (* (a) signature precedence; PGP-armoured content that fails as PGP must not be claimed by the PEM signature *)
